@@ -123,6 +123,7 @@ def main(argv=None):
         if err.strip():
             print(err.strip(), file=sys.stderr)
         return 1 if rc == 1 else 0
+    os.environ["VERIF_TIER"] = a.tier
     cfg = checks.PROPS[prop]
     seed = int(os.environ.get("VERIF_SEED", "0"))
     t0 = time.time()
